@@ -22,12 +22,51 @@ func wantParams(s *msggen.Spec) []har.Param {
 	return ps
 }
 
+// inflateCases: decoded sizes far above the compressed size, at several magnitudes: a highly
+// compressible body (a short pattern repeated) of 1 MiB .. 70 MiB that is a few KiB .. 100 KiB on the
+// wire, gzip and deflate, Content-Length and chunked. A decoder with a cap on what it inflates, a log
+// that keeps only so much, shows as a content shorter than the decoded body. Each in a case of its own
+// (no export of a 70 MiB entry); body and decoded body travel as seed+length / length+hash.
+func inflateCases(r *core.Rand, tier string, emit func([]string)) {
+	const M = 1 << 20
+	sizes := []int{M + 5, 33*M + 7, 65*M + 1}
+	if tier == "thorough" {
+		sizes = []int{M + 5, 4*M + 1, 16*M + 1, 32*M - 1, 32 * M, 32*M + 1, 40 * M, 64*M - 1, 64 * M, 64*M + 1, 70 * M}
+	}
+	for i, n := range sizes {
+		encs := []string{[]string{"gzip", "deflate"}[i%2]}
+		if tier == "thorough" {
+			encs = []string{"gzip", "deflate"}
+		}
+		for _, enc := range encs {
+			seed := r.U64() % 1000000
+			fr := r.Pick("cl", "chunked")
+			s := &msggen.Spec{Req: false, Code: 200, Framing: fr, Enc: enc, CT: "text/plain",
+				Payload: msggen.Payload(core.NewRand(seed), "rep", n)}
+			s.BodyTok = "gen:" + enc + ":rep:" + strconv.FormatUint(seed, 10) + ":" + strconv.Itoa(n)
+			if fr == "chunked" {
+				s.Chunks = []int{1 + r.Intn(5000)}
+			}
+			a := s.Abs()
+			core.Count("inflate:" + enc)
+			emit([]string{strings.Join(append([]string{"hres", "all", "p", c15.InflatedTok(a)}, a.Tokens()...), " ")})
+		}
+	}
+}
+
 func (P) Gen(r *core.Rand, tier string, emit func([]string)) {
+	inflateCases(r.Fork(), tier, emit)
 	n := 300
 	if tier == "thorough" {
 		n = 4000
 	}
 	jsonstrDirected(emit)
+	var qd []string
+	for _, q := range []string{"", "a", "a=", "=", "==", "a=b=c", "sig=c2ln=", "t=YWJjZA==&t=x", "&&a=1&&", "a=1;b=2&c=3", "k%3D=v%26w", "x+y=+", "%zz=1&ok=1",
+		"a=%4", "a=%", "b=2&a=1&b=1", "%3d=%3D", "a=%00", "=v&=w"} {
+		qd = append(qd, "query "+core.HexS(q))
+	}
+	emit(qd)
 	for i, m := 0, n/2; i < m; i++ {
 		emit(jsonstrOps(r, 12))
 	}
@@ -99,6 +138,9 @@ func (P) Gen(r *core.Rand, tier string, emit func([]string)) {
 			}
 		}
 		ops = append(ops, jsonstrOps(r, r.Range(1, 3))...)
+		for k, m := 0, r.Range(1, 2); k < m; k++ {
+			ops = append(ops, "query "+core.HexS(msggen.RawQuery(r)))
+		}
 		if r.Chance(1, 4) {
 			// the log as a whole: many more entries, then everything is inspected again
 			ops = append(ops, "logmany "+strconv.Itoa(r.Range(2, 40))+" "+strconv.FormatUint(r.U64()%1000000, 10))
